@@ -313,6 +313,13 @@ func iccdescCmd(args []string) error {
 		// directly
 		pr, rerr := icc.NewProfileReader(bytes.NewReader(prof)).ReadProfile()
 		emit("reader", pr, rerr)
+		// ... and through the other ways a caller may present the bytes (small / default bufio over
+		// short-reading sources, unbuffered, embedded across a buffer refill)
+		if how := i % nPresent; how != 0 {
+			rd, name := present(prof, how)
+			pr2, rerr2 := icc.NewProfileReader(rd).ReadProfile()
+			emit("reader:"+name, pr2, rerr2)
+		}
 		// through a container and meta.Data.ICCProfile()
 		var data []byte
 		var loader string
